@@ -754,7 +754,7 @@ func (vc *VC) execTypeSwitch(x *ast.TypeSwitchStmt, st *State, label string) *St
 			}
 			if ti, ok := vc.underlying(ct).(*types.Interface); ok {
 				var ialts []Term
-				for _, it := range vc.w.implementers(ti, typeKey(ct)) {
+				for _, it := range vc.w.implementers(ti, typeKey(ct), ct) {
 					ialts = append(ialts, vc.ss.hasTag(v.Sort, v, it))
 				}
 				alts = append(alts, tOr(ialts...))
@@ -832,7 +832,7 @@ func (vc *VC) closedWorld(v Term, t types.Type) {
 	if vc.ss.info[Sort(key)] != nil {
 		return
 	}
-	impls := vc.w.implementers(ti, typeKey(t))
+	impls := vc.w.implementers(ti, typeKey(t), t)
 	var alts []string
 	alts = append(alts, fmt.Sprintf("(= (tag.%s i) 0)", v.Sort))
 	for _, it := range impls {
